@@ -2,7 +2,6 @@ use super::*;
 use crate::{
     base::{BaseSlot, EntryContext, RuleCheckSlot, StatNode, TokenResult},
     logging, stat, utils,
-    utils::AsAny,
 };
 use lazy_static::lazy_static;
 use std::sync::Arc;
@@ -57,10 +56,13 @@ fn can_pass_check(
     let actual_node = {
         match tc.rule().relation_strategy {
             RelationStrategy::Associated => {
-                let node = stat::get_resource_node(&tc.rule().ref_resource).unwrap();
-                let node = node.as_any_arc();
-                let node = node.downcast_ref::<Arc<dyn StatNode>>().unwrap();
-                Some(node.clone())
+                // the associated resource's node is a `StatNode` itself; it exists once the rule
+                // is loaded (its statistic is built on it), fall back to creating it otherwise
+                let node: Arc<dyn StatNode> = stat::get_or_create_resource_node(
+                    &tc.rule().ref_resource,
+                    &crate::base::ResourceType::Common,
+                );
+                Some(node)
             }
             _ => given_node,
         }
